@@ -414,3 +414,24 @@ Definition wf_zip (ms : list member) : bool :=
   forallb name_ok ms && all_pairs no_clash ms.
 Definition is_link (m : member) : bool := match m_kind m with KLink _ => true | _ => false end.
 Definition no_links (ms : list member) : bool := forallb (fun m => negb (is_link m)) ms.
+
+(* ---------- the six VFS operations as one function ---------- *)
+Inductive vop := VStat | VIsdir | VIsfile | VExists | VListdir | VOpen.
+Inductive vres := RExc | RBool (b : bool) | RStatDir | RStatReg (size : N) | RNames (l : list str) | RData (d : list N).
+Definition vfs_op (ms : list member) (t : tbl) (c : caches) (zlen : nat) (op : vop) (sel : str) : vres * caches :=
+  let (l, c') := vfs_lookup t c (zfspath zlen sel) in
+  (match op, l with
+   | VStat, LAbsent => RExc
+   | VStat, LDir _ => RStatDir
+   | VStat, LFile _ k => RStatReg (N.of_nat (length (member_data ms k)))
+   | VIsdir, LDir _ => RBool true
+   | VIsdir, _ => RBool false
+   | VIsfile, LFile _ _ => RBool true
+   | VIsfile, _ => RBool false
+   | VExists, LAbsent => RBool false
+   | VExists, _ => RBool true
+   | VListdir, LDir i => RNames (dir_names t i)
+   | VListdir, _ => RExc
+   | VOpen, LFile _ k => RData (member_data ms k)
+   | VOpen, _ => RExc
+   end, c').
